@@ -539,10 +539,10 @@ fn proto(api: &Api, input: &str, out: &mut Out, kv: &Kv) {
                     let l1 = w2.as_bytes().len();
                     let second = match (api.pwrite)(ti, v, &mut w2) {
                         Some(Ok(())) => w2.as_bytes()[l1..].to_vec(),
-                        other => return Err(("backends".into(), format!("a writer that wrote another message before fails: {:?}", other.map(|r| r.err().map(|e| format!("{:?}", e)))))),
+                        other => return Err(("reuse".into(), format!("a writer that wrote another message before fails: {:?}", other.map(|r| r.err().map(|e| format!("{:?}", e)))))),
                     };
                     if second != bytes {
-                        return Err(("backends".into(), format!("as second message of one writer the octets are {}, as first {}", hex(&second), hex(&bytes))));
+                        return Err(("reuse".into(), format!("as second message of one writer the octets are {}, as first {}", hex(&second), hex(&bytes))));
                     }
                 }
             }
